@@ -3,8 +3,8 @@ sys.path.insert(0, os.path.dirname(os.path.abspath(__file__)))
 import seqfam, vlib, exprgen
 from exprgen import sql, col, num, strlit
 
-ASSUME = ["texts and patterns over the alphabet {%, _, a, b, .} (the . stands for regex metacharacters); no quote characters",
-          "carriers: WHERE, searched-CASE condition in SELECT, HAVING over the alias of last_value(s); x LIKE p as a SELECT expression is a pinned finding",
+ASSUME = ["texts and patterns over the alphabet {%, _, a, b, .} (the . stands for regex metacharacters) plus upper-case variants for the case-sensitivity scenarios; no quote characters",
+          "carriers: WHERE, searched-CASE condition in SELECT (exhaustive like WHERE), parenthesised SELECT expression, HAVING over the alias of last_value(s); an un-parenthesised x LIKE p as a SELECT expression is a pinned finding",
           "x LIKE p with x NULL or missing: the row is rejected / the value is not true"]
 ALPHA = ["%", "_", "a", "b", "."]
 
@@ -27,6 +27,9 @@ def like_scen(pat, texts, carrier, mode, neg=False):
         e = {"t": "case", "whens": [{"c": like, "r": num(1)}], "else": num(0)}
         meta = {"fam": "direct", "star": 0, "chan": 0, "sel": [{"al": "id", "e": col("id")}, {"al": "m", "e": e}]}
         txt = "SELECT id, %s AS m FROM stream" % sql(e)
+    elif carrier == "selpar":       # a parenthesised LIKE as a select item (evaluated through the expression bridge and its preprocess cache)
+        meta = {"fam": "direct", "star": 0, "chan": 0, "sel": [{"al": "id", "e": col("id")}, {"al": "m", "e": exprgen.par(like)}]}
+        txt = "SELECT id, (%s) AS m FROM stream" % sql(like)
     else:
         meta = {"fam": "direct", "star": 0, "chan": 0, "sel": [{"al": "id", "e": col("id")}, {"al": "m", "e": like}]}
         txt = "SELECT id, %s AS m FROM stream" % sql(like)
@@ -95,6 +98,8 @@ def run(tier):
         else:
             texts = rng.sample(texts_all, 160)
         scen.append(like_scen(pat, texts, "where", "sync" if k % 2 else "emit"))
+        if quick or len(pat) <= 3:      # the CASE carrier has a matcher of its own: every text against the pattern there too
+            scen.append(like_scen(pat, texts_all + [None], "case", "sync" if k % 2 else "emit"))
         if k % (10 if quick else 20) == 0:
             scen.append(like_scen(pat, rng.sample(texts_all, 60) + [None, None], "case", "sync"))      # an explicit NULL text: not true, the ELSE branch
             pass  # SELECT-expression carrier: x LIKE p as a select item is NULL on the unchanged tree (pinned finding LikeInSelectIsNull)
@@ -111,6 +116,14 @@ def run(tier):
     # CASE carrier with NULL texts for the patterns that a stringified NULL could match by accident
     for k, pat in enumerate(["%", "%%", "_____", "<%", "%i%", "%l>", "<nil>", "<___>", "nil", "%n%", "NULL", "%U%"]):
         scen.append(like_scen(pat, ["a", None, "<nil>", None, "null", "NULL"], "case", "sync" if k % 2 else "emit"))
+    # parenthesised select items; patterns and texts that differ only in letter case (a cache keyed case-insensitively would mix them up)
+    cased = ["a%", "A%", "%b", "%B", "a_", "A_", "%ab%", "%AB%", "%aB%", "ab", "AB", "Ab"]
+    ctexts = ["ab", "Ab", "aB", "AB", "b", "B", "xab", "xAB", ""]
+    for k, pat in enumerate(cased * (1 if quick else 3)):
+        scen.append(like_scen(pat, ctexts + rng.sample(texts_all, 20), "selpar", "sync" if k % 2 else "emit"))
+        scen.append(like_scen(pat, ctexts, "where", "sync"))
+    for k, pat in enumerate(rng.sample(pats, 40 if quick else 200)):
+        scen.append(like_scen(pat, rng.sample(texts_all, 40), "selpar", "sync" if k % 2 else "emit"))
     seqfam.run_scenarios(res, scen, "TraceDirect", tag="like")
     hav = [having_scen(rng, ["like", "notnull", "isnull", "like_and_notnull", "notnull_and_like"], ["a%", "%b", "a_", "%", "%a%", "a%b", "x%aab", "_"]) for _ in range(150 if quick else 5000)]
     seqfam.run_scenarios(res, hav, "TracePostAgg", tag="having")
